@@ -157,6 +157,9 @@ def mk_result(seam_list, violations, nontrivial, outcome=None, dontcare=None,
         sr = s.stats.get('short_reads', 0)
         if sr:
             fired['short_read'] = fired.get('short_read', 0) + sr
+        pl = s.stats.get('permuted_listings', 0)
+        if pl:
+            fired['schedule.permuted-directory-listing'] = fired.get('schedule.permuted-directory-listing', 0) + pl
     m.update(repr(outcome).encode('utf8', 'backslashreplace'))
     m.update(extra_digest.encode('utf8', 'backslashreplace'))
     return {'violations': violations, 'digest': m.hexdigest()[:32],
